@@ -61,6 +61,8 @@ func (i *interpreter) zvCall(fr *frame, fn *ssa.Function, args []value) value {
 		return mkScalar(b.Eq(x, y), types.Bool)
 	case "Symbolic":
 		return true
+	case "Tier":
+		return i.world.Tier
 	case "Stop":
 		panic(pathAbort{abortDone, "zv.Stop"})
 	case "Note":
